@@ -152,7 +152,13 @@ def run(res, tier, seed, driver_ok):
                 stats['raphson_compared'] += 1
                 ex = int(v[7])
                 stats[['exit_residual', 'exit_small_step', 'exit_budget'][ex]] += 1
-                if np.abs(v[:6] - a).max() > 1e-9 or int(v[6]) != it:
+                if ex == 2:
+                    # the iteration budget ran out: a non-convergent run amplifies rounding differences without bound, only the
+                    # iteration count is comparable
+                    stats['budget_exits_compared_by_count_only'] = stats.get('budget_exits_compared_by_count_only', 0) + 1
+                    if int(v[6]) != it:
+                        res.mismatches.append({'fn': 'SPFKinSpaceR', 'iters_model': int(v[6]), 'iters_real': it, 'input': inp})
+                elif np.abs(v[:6] - a).max() > 1e-9 or int(v[6]) != it:
                     res.mismatches.append({'fn': 'SPFKinSpaceR', 'max_diff': float(np.abs(v[:6] - a).max()), 'iters_model': int(v[6]), 'iters_real': it, 'input': inp})
     stats['worst_pose_error_over_h'] = worst['pose/h']; stats['worst_length_error_over_h'] = worst['lengths/h']
     res.stats.update(stats)
